@@ -445,7 +445,9 @@ def shot_noise(img, method='poisson', seed=None):
             try:
                 # rounded to the nearest whole count (truncating the draw
                 # leaves the mean half a count below the signal)
-                img = np.rint(rng.normal(loc=img, scale=np.sqrt(img)))
+                # (np.abs: the square root of a -0.0 left behind by rounding
+                # is -0.0, which the generator takes for a negative scale)
+                img = np.rint(rng.normal(loc=img, scale=np.sqrt(np.abs(img))))
             except FloatingPointError:
                 raise ValueError('Counts must be positive')
 
